@@ -14,6 +14,36 @@ INT_MIN, INT_MAX = -2147483648, 2147483647
 CMP = {"<": lambda a, b: a < b, "<=": lambda a, b: a <= b, ">": lambda a, b: a > b, ">=": lambda a, b: a >= b}
 
 
+def shift_programs(tier):
+    """`(x + c1) OP c2` with x read at run time and c1, c2 literals near and far from the range limits."""
+    xs = [-7, 0, 5]
+    c1s = [-2147483647, -10, -1, 1, 10, 2147483647] if tier == "quick" else [-2147483647, -2147483640, -65536, -10, -1, 1, 10, 65536, 2147483640, 2147483647]
+    c2s = [INT_MIN, INT_MIN + 6, -3, 0, 4, INT_MAX - 5, INT_MAX]
+    cases = [(op, x, c1, c2) for op in ("LT", "LE", "GT", "GE", "EQ", "NE") for x in xs for c1 in c1s for c2 in c2s
+             if INT_MIN <= x + c1 <= INT_MAX]
+    progs = []
+    for i in range(0, len(cases), 200):
+        cs = cases[i:i + 200]
+        lines = [f'    Process.println(Str.fromInt(if (Main.v("{x}") + ({c1})) {c04.OPS[op]} ({c2}) {{ 1 }} else {{ 0 }}));' for (op, x, c1, c2) in cs]
+        text = "class Main {\n  function v(s: Str): int = s.toInt()\n  function main(): unit = {\n" + "\n".join(lines) + "\n  }\n}\n"
+        progs.append({"origin": "arith:shift", "entry": "Main", "sources": {"Main": text}, "kind": "shift", "cases": [list(c) for c in cs]})
+    return progs
+
+
+def shift_rows(recs):
+    rows = []
+    for r in recs:
+        if r.get("front") != "accepted":
+            tool_failure(f"shift program rejected/crashed: {r.get('errors') or r.get('crash')}")
+        b0, b31 = r["builds"].get("raw", {}), r["builds"].get("opt:31", {})
+        for i, (op, x, c1, c2) in enumerate(r["cases"]):
+            rows.append({"kind": "shift", "op": op, "x": x, "a": c1, "b": c2,
+                         "wasm0": c04.line_or_end(b0.get("wasm"), i), "ts0": c04.line_or_end(b0.get("ts"), i),
+                         "wasm31": c04.line_or_end(b31.get("wasm"), i), "ts31": c04.line_or_end(b31.get("ts"), i),
+                         "status0": b0.get("status", "?"), "status31": b31.get("status", "?")})
+    return rows
+
+
 def loop_cases(tier):
     """(shape, op, init, step, bound) whose loop terminates in the 32-bit range within 20000 iterations;
     bounds, strides and initial values near INT_MIN / INT_MAX included (LoopRules.tla's universe scaled up)."""
@@ -101,12 +131,13 @@ def run(tier):
     cases = c04.arith_cases(tier)
     progs = [p for p in c04.arith_programs(cases) if p["kind"] == "fold"]
     rows = c04.arith_trace(pc.run_programs(d, "fold", progs, [0, 31]))   # opt:0 still folds nothing away: CCP needs inlining to see the literals
+    rows += shift_rows(pc.run_programs(d, "shift", shift_programs(tier), ["raw", 31]))
     tr = os.path.join(d, "fold-trace.ndjson")
     write_ndjson(tr, rows)
     v = tlc("ArithTrace", "ArithTraceFold.cfg", env={"TRACE": tr}, deque=True, tag="c02at", timeout=1500)
     if v.violated:
         l = (v.last_l() or 2) - 1
-        report_violation(PID, save_replay(PID, "fold-case", {"case": rows[l - 1]}, "FoldOK of ArithTrace.tla", rows[l - 1]))
+        report_violation(PID, save_replay(PID, "fold-case", {"case": rows[l - 1]}, f"{v.violated} of ArithTrace.tla", rows[l - 1]))
         fails += 1
     elif not v.ok:
         log(v.out[-3000:])
